@@ -410,15 +410,34 @@ def lazy_check(allc, claim, timeout_ms, C=None, max_iter=60, batch=6):
             return "unknown", None
         m = s.model()
         viol = []
-        for i, (f, v) in enumerate(fv):
-            if inset[i] or not (v & cur):
-                continue
-            try:
-                val = m.eval(f, model_completion=True)
-            except z3.Z3Exception:
-                val = None
-            if val is None or not z3.is_true(val):
-                viol.append((len(v - cur), len(v), i))
+        # evaluating constraints at a model with algebraic numbers can take unboundedly long:
+        # a watchdog thread interrupts z3 at the deadline; the query is then undecided
+        import threading
+
+        cancelled = []
+
+        def _stop():
+            cancelled.append(1)
+            z3.main_ctx().interrupt()
+
+        wd = threading.Timer(max(1.0, t_end - time.time()), _stop)
+        wd.start()
+        try:
+            for i, (f, v) in enumerate(fv):
+                if inset[i] or not (v & cur):
+                    continue
+                if cancelled:
+                    break
+                try:
+                    val = m.eval(f, model_completion=True)
+                except z3.Z3Exception:
+                    val = None
+                if val is None or not z3.is_true(val):
+                    viol.append((len(v - cur), len(v), i))
+        finally:
+            wd.cancel()
+        if cancelled:
+            return "unknown", None
         if not viol:
             return "sat", s
         viol.sort()
@@ -472,6 +491,8 @@ def check(C: Ctx, claim, timeout_ms=60000, extra=(), inputs=None, with_uf=True, 
         m = s.model()
         mdl = {}
         for k, v in inputs.items():
+            if v is None:
+                continue
             mdl[k] = model_value(m, v.term() if isinstance(v, SV) else v)
     return r, dt, mdl
 
